@@ -70,3 +70,16 @@ Example c17_inhabited :
   map gid (groups (fst (step E_ok three (at_ 1012 3 false 4)))) = [3%N] /\
   snd (step E_ok three FlushAll) = RNil /\ snd (step E_nobroker (run E_nobroker [at_ 1000 1 false 1; at_ 1001 2 false 2]) Close) = RNil.
 Proof. repeat split. Qed.
+
+(* a gate whose list order is NOT its expiry order (Filter.Expiration was shortened between the two openings, or the clock stepped
+   back): group 1 arrived first and expires at 1010, group 2 arrived second and expires at 1005.  At 1007 the sweep must step over
+   the unexpired group 1 and still emit group 2. *)
+Definition unordered : gst :=
+  {| groups := [ {| gid := 1; gevs := [{| eid := 1; en := 1 |}]; gexp := 1010 |}; {| gid := 2; gevs := [{| eid := 2; en := 2 |}]; gexp := 1005 |} ];
+     out := {| olog := [LArr {| eid := 2; en := 2 |}; LArr {| eid := 1; en := 1 |}]; osend := 0 |};
+     accepted := [{| eid := 1; en := 1 |}; {| eid := 2; en := 2 |}] |}.
+Example unordered_sweep :
+  snd (step E_ok unordered (at_ 1007 3 false 3)) = RWithheld /\
+  map gid (groups (fst (step E_ok unordered (at_ 1007 3 false 3)))) = [1%N; 3%N] /\
+  hd (LArr {| eid := 0; en := 0 |}) (tl (log (fst (step E_ok unordered (at_ 1007 3 false 3))))) = LOut DSent 2 [{| eid := 2; en := 2 |}].
+Proof. repeat split. Qed.
